@@ -80,7 +80,7 @@ MAY_PANIC = {
 }
 MAY_PANIC = {k: v for k, v in MAY_PANIC.items() if v}
 PANIC_FNS = re.compile(
-    r"^(core::panicking::|std::rt::begin_panic|std::panicking::|core::option::expect_failed|core::option::unwrap_failed|"
+    r"^(core::panicking::|std::rt::begin_panic|std::rt::panic_|std::panicking::|core::option::expect_failed|core::option::unwrap_failed|"
     r"core::result::unwrap_failed|std::process::abort|std::process::exit|core::intrinsics::abort)"
 )
 
